@@ -197,7 +197,7 @@ class Pervaporation:
             precision,
             permeate_temperature,
             permeate_pressure,
-            calculation_type
+            calculation_type=calculation_type,
         )
         return Composition(x[0] / numpy.sum(x), type=CompositionType.weight)
 
@@ -260,7 +260,7 @@ class Pervaporation:
                     precision,
                     permeate_temperature,
                     permeate_pressure,
-                    calculation_type,
+                    calculation_type=calculation_type,
                 )
                 for composition in compositions
             ],
